@@ -985,6 +985,57 @@ func runLX(c *Ctx) (obls []Obl) {
 		} else {
 			a.bad("LX-swo", "uint64Slice.Less", "not the plain a[i] < a[j]", fd.Pos())
 		}
+		// sort.Sort orders by Less only if Len is the length and Swap exchanges
+		// the two elements (decided on the SSA form of the two methods)
+		okLen, okSwap := false, false
+		if lf := c.L.Func("stack", "uint64Slice", "Len"); lf != nil && len(lf.Blocks) == 1 {
+			for _, in := range lf.Blocks[0].Instrs {
+				if ret, isR := in.(*ssa.Return); isR && len(ret.Results) == 1 {
+					if call, isC := ret.Results[0].(*ssa.Call); isC && bnCallee(call) == "builtin.len" && call.Call.Args[0] == ssa.Value(lf.Params[0]) {
+						okLen = true
+					}
+				}
+			}
+		}
+		if sf := c.L.Func("stack", "uint64Slice", "Swap"); sf != nil && len(sf.Blocks) == 1 && len(sf.Params) == 3 {
+			// loads of a[i], a[j] then stores a[i] = old a[j], a[j] = old a[i]
+			idxOf := func(v ssa.Value) ssa.Value {
+				if ia, ok := v.(*ssa.IndexAddr); ok && ia.X == ssa.Value(sf.Params[0]) {
+					return ia.Index
+				}
+				return nil
+			}
+			var stores [][2]ssa.Value // (index stored to, index loaded from)
+			seenStore := false
+			lateLoad := false
+			for _, in := range sf.Blocks[0].Instrs {
+				switch in := in.(type) {
+				case *ssa.Store:
+					seenStore = true
+					if ld, ok := in.Val.(*ssa.UnOp); ok && ld.Op == token.MUL {
+						stores = append(stores, [2]ssa.Value{idxOf(in.Addr), idxOf(ld.X)})
+					} else {
+						stores = append(stores, [2]ssa.Value{nil, nil})
+					}
+				case *ssa.UnOp:
+					if in.Op == token.MUL && seenStore {
+						lateLoad = true // an element read after the first write: not an exchange
+					}
+				}
+			}
+			i, j := ssa.Value(sf.Params[1]), ssa.Value(sf.Params[2])
+			if len(stores) == 2 && !lateLoad {
+				a0, a1 := stores[0], stores[1]
+				if (a0 == [2]ssa.Value{i, j} && a1 == [2]ssa.Value{j, i}) || (a0 == [2]ssa.Value{j, i} && a1 == [2]ssa.Value{i, j}) {
+					okSwap = true
+				}
+			}
+		}
+		if okLen && okSwap {
+			a.ok("LX-swo", "uint64Slice.Len+Swap", "Len is the length and Swap exchanges the two elements: sort.Sort yields the order Less defines", fd.Pos())
+		} else {
+			a.bad("LX-swo", "uint64Slice.Len+Swap", fmt.Sprintf("the sort.Interface of the pointer values is not the canonical one (Len ok=%v, Swap ok=%v): sort.Sort does not produce the order of Less, and the pseudo-names follow whatever order results", okLen, okSwap), fd.Pos())
+		}
 	} else {
 		// the helper type is gone: whoever sorts pointer values now is MO-range's business (slices.Sort is total)
 		a.ok("LX-swo", "uint64Slice.Less", "no uint64Slice sort helper in this tree (the sort of the pointer values is classified by MO-range)", token.NoPos)
